@@ -579,6 +579,17 @@ class ModelBase:
                 else:
                     st.env[test.id] = v.w(falsy=True)
             return
+        # `if len(x):` / `if x.size:`  ==  non-emptiness
+        tgt = None
+        if isinstance(test, ast.Call) and isinstance(test.func, ast.Name) and test.func.id == 'len' and test.args and isinstance(test.args[0], ast.Name):
+            tgt = test.args[0].id
+        elif isinstance(test, ast.Attribute) and test.attr == 'size' and isinstance(test.value, ast.Name):
+            tgt = test.value.id
+        if tgt is not None:
+            v = st.env.get(tgt)
+            if v is not None and branch:
+                st.env[tgt] = v.w(maybe_empty=None, nonempty=True)
+            return
         if isinstance(test, ast.Compare) and len(test.ops) == 1:
             op = test.ops[0]
             left, right = test.left, test.comparators[0]
